@@ -4,6 +4,7 @@
    a parser/printer pair; boolean form (the ORACLE): the same statement
    evaluated on what the implementation returned for one source text. *)
 From Yv Require Import Common.Base C06.Ast.
+From Yv Require Export C06.SpecLex.
 
 (* ---- Prop form ------------------------------------------------------------ *)
 
@@ -83,6 +84,57 @@ with pipeline_has_heredoc (p : pipeline) : bool :=
   match p with Pipeline cs _ => existsb command_has_heredoc cs end.
 
 Definition has_heredoc (l : slist) : bool := existsb item_has_heredoc l.
+
+(* ---- the class of known finding F14 ------------------------------------------- *)
+
+(* a word with a `$(...)` substitution whose content starts with `(` (only
+   accepted through the `$((` arithmetic fallback) *)
+Definition f14_word (w : word) : bool := negb (ok_word w).
+
+Definition f14_redir (r : redir) : bool :=
+  match r_body r with
+  | RNormal _ w => f14_word w
+  | RHereDoc d _ _ => f14_word d
+  end.
+
+Definition f14_assign (a : assign) : bool :=
+  match a_value a with
+  | Scalar w => f14_word w
+  | Array ws => existsb f14_word ws
+  end.
+
+Fixpoint f14_command (c : command) : bool :=
+  match c with
+  | CSimple a w r =>
+      existsb f14_assign a || existsb (fun x => f14_word (fst x)) w || existsb f14_redir r
+  | CCompound c r => f14_compound c || existsb f14_redir r
+  | CFunction _ n c r => f14_word n || f14_compound c || existsb f14_redir r
+  end
+with f14_compound (c : compound) : bool :=
+  match c with
+  | Grouping l | Subshell l => existsb f14_item l
+  | For n vs b =>
+      f14_word n || match vs with Some ws => existsb f14_word ws | None => false end
+      || existsb f14_item b
+  | While c b | Until c b => existsb f14_item c || existsb f14_item b
+  | If c b es e =>
+      existsb f14_item c || existsb f14_item b
+      || existsb (fun p => existsb f14_item (fst p) || existsb f14_item (snd p)) es
+      || match e with Some l => existsb f14_item l | None => false end
+  | Case s items =>
+      f14_word s
+      || existsb (fun i => match i with
+                           | CaseItem ps b _ => existsb f14_word ps || existsb f14_item b
+                           end) items
+  end
+with f14_item (i : item) : bool :=
+  match i with
+  | Item (AndOrList f r) _ => f14_pipeline f || existsb (fun p => f14_pipeline (snd p)) r
+  end
+with f14_pipeline (p : pipeline) : bool :=
+  match p with Pipeline cs _ => existsb f14_command cs end.
+
+Definition f14_class (l : slist) : bool := existsb f14_item l.
 
 (* [None]: the observation satisfies the property; [Some k]: clause k is
    violated (verdict code 2+k).  Evaluated on the implementation's outputs
